@@ -984,4 +984,75 @@ theorem mpcLoop_fuel (fuel : Nat) : ∀ (k : Nat) (st : Stepper ℝ) (u : Option
 
 end mpcloop
 
+/-! ## Part 8 — re-using one MPC / stepper object: no state leaks from call to call -/
+
+section reuse
+variable {ns nc : Nat}
+
+/-- the constructor arguments of a stepper (everything `reset()` does not overwrite) -/
+def SameParams (a b : Stepper ℝ) : Prop :=
+  a.maxSteps = b.maxSteps ∧ a.patience = b.patience ∧ a.decreasing = b.decreasing ∧ a.tol = b.tol
+
+theorem SameParams.refl (a : Stepper ℝ) : SameParams a a := ⟨rfl, rfl, rfl, rfl⟩
+theorem SameParams.trans {a b c : Stepper ℝ} (h1 : SameParams a b) (h2 : SameParams b c) : SameParams a c :=
+  ⟨h1.1.trans h2.1, h1.2.1.trans h2.2.1, h1.2.2.1.trans h2.2.2.1, h1.2.2.2.trans h2.2.2.2⟩
+
+theorem reset_eq_of_sameParams {a b : Stepper ℝ} (h : SameParams a b) : a.reset = b.reset := by
+  obtain ⟨h1, h2, h3, h4⟩ := h
+  cases a; cases b
+  simp only [Stepper.reset] at *
+  simp_all
+
+theorem step_sameParams (a : Stepper ℝ) (c : ℝ) : SameParams (a.step c) a := ⟨rfl, rfl, rfl, rfl⟩
+theorem reset_sameParams (a : Stepper ℝ) : SameParams a.reset a := ⟨rfl, rfl, rfl, rfl⟩
+
+theorem mpcLoop_sameParams (sol : Solver ℝ ns nc) (S : Sys ℝ ns nc) (P : Prob ℝ ns nc) (dt : Nat) (x0 : Vec ℝ ns) (fuel : Nat) :
+    ∀ (st : Stepper ℝ) (u : Option (List (Vec ℝ nc))) (best : Best ℝ ns nc) (n : Nat),
+      SameParams (mpcLoop sol S P dt x0 fuel st u best n).2.1 st := by
+  induction fuel with
+  | zero => intro st u best n; exact SameParams.refl _
+  | succ fuel ih =>
+    intro st u best n
+    rw [mpcLoop]
+    by_cases hc : st.continual = true
+    · simp only [hc, if_true]
+      exact (ih _ _ _ _).trans (step_sameParams _ _)
+    · simp only [hc]
+      exact SameParams.refl _
+
+/-- one `MPC.forward` call: problem, start, initial inputs, iteration budget -/
+structure MpcCall (ns nc : Nat) where
+  P : Prob ℝ ns nc
+  dt : Nat
+  x0 : Vec ℝ ns
+  uinit : Option (List (Vec ℝ nc))
+  fuel : Nat
+
+/-- several calls threading ONE stepper object (what re-using an `MPC` object does) -/
+noncomputable def mpcSeq (sol : Solver ℝ ns nc) (S : Sys ℝ ns nc) : List (MpcCall ns nc) → Stepper ℝ → List (Out ℝ ns nc × Nat)
+  | [], _ => []
+  | c :: rest, st =>
+    let r := mpc sol S c.P c.dt c.x0 c.fuel st c.uinit
+    (r.1, r.2.2) :: mpcSeq sol S rest r.2.1
+
+theorem bwFrom_dt (sol : Solver ℝ ns nc) (S : Sys ℝ ns nc) (P : Prob ℝ ns nc) (dt dt' : Nat)
+    (xbar : Nat → Vec ℝ ns) (ubar : Nat → Vec ℝ nc)
+    (hA : ∀ t t' x u, S.A t x u = S.A t' x u) (hB : ∀ t t' x u, S.B t x u = S.B t' x u) (n : Nat) :
+    ∀ t, bwFrom sol S P dt xbar ubar t n = bwFrom sol S P dt' xbar ubar t n := by
+  induction n with
+  | zero => intro t; rfl
+  | succ n ih =>
+    intro t
+    rw [bwFrom_succ, bwFrom_succ, ih (t+1)]
+    have hs : ∀ nxt, stage sol S P dt xbar ubar t nxt = stage sol S P dt' xbar ubar t nxt := by
+      intro nxt
+      have hq : stageQ S P dt xbar ubar t nxt = stageQ S P dt' xbar ubar t nxt := by
+        cases nxt with
+        | none => rfl
+        | some w => simp only [stageQ]; rw [hA (t * dt) (t * dt'), hB (t * dt) (t * dt')]
+      simp only [stage, hq]
+    rw [hs]
+
+end reuse
+
 end PP.Lqr
